@@ -45,6 +45,7 @@ type harnessResult struct {
 	Solver       solverStats       `json:"solver"`
 	FeasQueries  int               `json:"feasibility_queries"`
 	ModelHits    int               `json:"feasibility_by_model"`
+	IntervalHits int               `json:"feasibility_by_variable_bounds"`
 	engineStacks map[string]string
 }
 
@@ -323,6 +324,7 @@ func (ex *explorer) runMany(hs []harness, progress func(*harnessResult)) []*harn
 				res.Undischarged += p.stats.Undischarged
 				res.FeasQueries += p.stats.FeasQueries
 				res.ModelHits += p.stats.ModelHits
+				res.IntervalHits += p.stats.IntervalHits
 				res.Steps += p.steps
 				for _, u := range p.undis {
 					res.Undis[u]++
